@@ -209,7 +209,8 @@ def replay(beh):
         for mid, sub in zip(ent["elems"], subs):
             m = objs[mid]
             per_obj_calls.setdefault(mid, []).append(bool(sub["ok"]))
-            if ent["ctype"] == "single":
+            if ent["ctype"] in ("single", "plain"):
+                # (a plain composite calls its elements one after the other, each exactly as if it stood alone)
                 if sub["k"] == "disp" and sub["ok"]:
                     m.to_displace_labels = sub["lab"]
                 elif sub["k"] == "exch":
